@@ -368,6 +368,36 @@ func g4eData(fam string, p map[string]string, n int, seed int64) []byte {
 		return g4FitLen(sh.F(r, n), n)
 	case "exehdr":
 		return g4ExeHeader(r, n, g4Int(p, "kind", 0), g4Int(p, "sane", 0) == 1)
+	case "sandwich":
+		// compressible text, then `mid` bytes of kind k (0 = incompressible, 1 = one repeated byte, 2 = repeated 4-byte
+		// pattern), then compressible text: puts a literal run / match / run length of an exact size inside a block that
+		// the codec still accepts.  n = pre + mid + post.
+		pre, mid := g4Int(p, "pre", 0), g4Int(p, "mid", 0)
+		if pre+mid > n {
+			pre = max(0, n-mid)
+			mid = n - pre
+		}
+		b := make([]byte, 0, n)
+		b = append(b, g4FitLen(gen.Text(r, max(pre, 1)), pre)...)
+		m := make([]byte, mid)
+		switch g4Int(p, "k", 0) {
+		case 0:
+			r.Read(m)
+		case 1:
+			v := byte(r.Intn(256))
+			for i := range m {
+				m[i] = v
+			}
+		default:
+			pat := []byte{byte(r.Intn(256)), byte(r.Intn(256)), byte(r.Intn(256)), byte(r.Intn(256))}
+			for i := range m {
+				m[i] = pat[i&3]
+			}
+		}
+		b = append(b, m...)
+		post := n - len(b)
+		b = append(b, g4FitLen(gen.Text(r, max(post, 1)), post)...)
+		return b
 	case "single":
 		b := make([]byte, n)
 		v := byte(g4Int(p, "v", r.Intn(256)))
